@@ -1,0 +1,31 @@
+//go:build verif
+
+package app
+
+// Add-only hooks for the verification harness of property C14 (/verif). Thin exported wrappers,
+// no change of behaviour. Only compiled with -tags verif.
+
+import (
+	"regexp"
+	"strings"
+)
+
+// VerifC14CalcStatusCode calls calcStatusCode for a synthetic asset with a single video
+// representation repID whose segments are given as (start, end) in the media timescale, numbered
+// from 1. confURL is a full request path (/livesim2/<options>/<asset>/<rep>/<id>.m4s) handed to
+// processURLCfg; segmentPart is "<rep>/<id>.m4s". cfgErr is the error of processURLCfg, if any.
+func VerifC14CalcStatusCode(repID string, segs [][2]uint64, timescale, loopDurMS int,
+	confURL, segmentPart string, nowMS int) (code int, err error, cfgErr error) {
+	cfg, cfgErr := processURLCfg(confURL, nowMS)
+	if cfgErr != nil {
+		return 0, nil, cfgErr
+	}
+	rd := &RepData{ID: repID, ContentType: "video", MediaTimescale: timescale, MediaURI: repID + "/$Number$.m4s"}
+	rd.mediaRegexp = regexp.MustCompile(strings.ReplaceAll(rd.MediaURI, "$Number$", `(\d+)`))
+	for i, s := range segs {
+		rd.Segments = append(rd.Segments, Segment{StartTime: s[0], EndTime: s[1], Nr: uint32(i + 1)})
+	}
+	a := &asset{AssetPath: "synthetic", LoopDurMS: loopDurMS, Reps: map[string]*RepData{repID: rd}, refRep: rd}
+	code, err = calcStatusCode(cfg, a, segmentPart, nowMS)
+	return code, err, nil
+}
